@@ -12,6 +12,12 @@ for f in os.listdir(seed):
     p = os.path.join(seed, f)
     if os.path.isfile(p):
         shutil.copy(p, os.path.join(dst, f if not f.endswith('_test.go') else f + '.txt'))
+import subprocess
+out = subprocess.run(['git', '-C', wt, 'status', '--porcelain'], capture_output=True, text=True).stdout
+for l in out.splitlines():
+    if l.startswith('??') and l.strip().endswith('_test.go'):
+        f = l[3:].strip()
+        shutil.copy(os.path.join(wt, f), os.path.join(dst, os.path.basename(f) + '.txt'))
 log = open('/tmp/seed/confirm-%s.log' % name).read().strip().splitlines()[-1] if os.path.exists('/tmp/seed/confirm-%s.log' % name) else ''
 meta = {
  'property': prop,
